@@ -1082,6 +1082,7 @@ seq_t dtw_warping_paths_ndim(seq_t *wps,
 
     DTWWps p = dtw_wps_parts(l1, l2, settings);
     if (settings->use_pruning || settings->only_ub) {
+        seq_t user_max_dist = p.max_dist;
         // Bound in the internal representation (sum of squares), not pow(sqrt(sum), 2)
         if (ndim == 1) {
             p.max_dist = euclidean_distance_sq(s1, l1, s2, l2);
@@ -1094,6 +1095,10 @@ seq_t dtw_warping_paths_ndim(seq_t *wps,
             } else {
                 return sqrt(p.max_dist);
             }
+        }
+        if (user_max_dist < p.max_dist) {
+            // A max_dist given by the user stays in force when it is the tighter bound
+            p.max_dist = user_max_dist;
         }
     }
 
@@ -1484,6 +1489,7 @@ seq_t dtw_warping_paths_ndim_euclidean(seq_t *wps,
 
     DTWWps p = dtw_wps_parts(l1, l2, settings);
     if (settings->use_pruning || settings->only_ub) {
+        seq_t user_max_dist = p.max_dist;
         if (ndim == 1) {
             p.max_dist = ub_euclidean_euclidean(s1, l1, s2, l2);
         } else {
@@ -1491,6 +1497,10 @@ seq_t dtw_warping_paths_ndim_euclidean(seq_t *wps,
         }
         if (settings->only_ub) {
             return p.max_dist;
+        }
+        if (user_max_dist < p.max_dist) {
+            // A max_dist given by the user stays in force when it is the tighter bound
+            p.max_dist = user_max_dist;
         }
     }
 
